@@ -430,6 +430,20 @@ inductive Accs where
   | index (l : WTok) (e : Cst) (r : WTok) (rest : Accs)
 end
 
+/-- `RcDoc::intersperse(member.access, line_())`: a soft line BETWEEN two accesses, none after the last -/
+def accSep : Accs → Doc
+  | .nil => .nil
+  | _ => .softline
+
+def Args.isNil : Args → Bool
+  | .nil => true
+  | _ => false
+
+/-- the arguments of a method call: nothing between the parentheses of `f()`, otherwise
+    `line_().append(args).nest(iw).append(line_())` -/
+def callArgsDoc (iw : Nat) (isNil : Bool) (argsDoc : Doc) : Doc :=
+  if isNil then .nil else .nest iw (.softline ++ argsDoc) ++ .softline
+
 def opsDoc : List WTok → Doc
   | [] => .nil
   | t :: ts => tokDoc t ++ opsDoc ts
@@ -479,10 +493,10 @@ def chainDocW (fixed : Bool) (iw : Nat) (k : ChainKind) : Chain → Doc
     | .path => tokDoc op ++ (toDocW fixed iw e ++ chainDocW fixed iw k rest)
 def accsDocW (fixed : Bool) (iw : Nat) : Accs → Doc
   | .nil => .nil
-  | .field dot name rest => tokDoc dot ++ (tokDoc name ++ (.softline ++ accsDocW fixed iw rest))
+  | .field dot name rest => tokDoc dot ++ (tokDoc name ++ (accSep rest ++ accsDocW fixed iw rest))
   | .call l args r rest =>
-    tokDoc l ++ (.nest iw (.softline ++ argsDocW fixed iw args) ++ (.softline ++ (tokDoc r ++ (.softline ++ accsDocW fixed iw rest))))
-  | .index l e r rest => tokDoc l ++ (toDocW fixed iw e ++ (tokDoc r ++ (.softline ++ accsDocW fixed iw rest)))
+    tokDoc l ++ (callArgsDoc iw args.isNil (argsDocW fixed iw args) ++ (tokDoc r ++ (accSep rest ++ accsDocW fixed iw rest)))
+  | .index l e r rest => tokDoc l ++ (toDocW fixed iw e ++ (tokDoc r ++ (accSep rest ++ accsDocW fixed iw rest)))
 end
 
 /-- doc.rs as it is -/
